@@ -205,7 +205,7 @@ type valProj struct {
 
 type proj struct {
 	Vals []valProj `json:"vals"`
-	Wq   [][]int64 `json:"wq"` // [validator, delegator (0 = the validator itself), finalBalance, finished, initialBalance]
+	Wq   [][]int64 `json:"wq"` // [validator, delegator (0 = the validator itself), finalBalance, finished, initialBalance, completionHeight]
 	Pen  int64     `json:"pen"`
 }
 
@@ -225,7 +225,7 @@ func (w *world) proj(st *state.StateDB) proj {
 	}
 	p.Wq = [][]int64{}
 	for _, r := range st.GetWithdrawQueue().Records {
-		p.Wq = append(p.Wq, []int64{int64(w.names[r.Validator]), int64(w.dnames[r.Delegator]), fixture.I(r.FinalBalance), int64(r.Finished), fixture.I(r.InitialBalance)})
+		p.Wq = append(p.Wq, []int64{int64(w.names[r.Validator]), int64(w.dnames[r.Delegator]), fixture.I(r.FinalBalance), int64(r.Finished), fixture.I(r.InitialBalance), int64(r.CompletionHeight)})
 	}
 	p.Pen = fixture.I(st.GetBalance(w.YP.PenaltyTo))
 	return p
